@@ -13,6 +13,10 @@ class BodyError(Exception):
     """Raised by the with-block body when the workload says so."""
 
 
+class BodyAbort(BaseException):
+    """A KeyboardInterrupt/SystemExit-like BaseException raised by the body."""
+
+
 def setup(root):
     global fu
     import boltons.fileutils as m
@@ -134,6 +138,8 @@ def run_save(case, plan=None, log=None, hooks=None, fs=None, only_warmup=False):
                 elif step[0] == 'flush':
                     f.flush()
                 elif step[0] == 'raise':
+                    if len(step) > 1 and step[1] == 'base':
+                        raise BodyAbort('body interrupted')
                     raise BodyError('body failed')
             r.body_done = True
     except simfs.CrashNow:
@@ -205,7 +211,7 @@ def gen_body(rng, text, blksize, allow_raise=False):
         if rng.random() < 0.7:
             steps.append(['write', chunk(rng.randint(1, 5))])
     if allow_raise and rng.random() < 0.25:
-        steps.insert(rng.randint(0, len(steps)), ['raise'])
+        steps.insert(rng.randint(0, len(steps)), ['raise'] if rng.random() < 0.7 else ['raise', 'base'])
     return steps
 
 
